@@ -5,6 +5,7 @@ func init() {
 		ID:    "C02",
 		Title: "@if/@elseif/@else renders exactly the first truthy branch",
 		Rules: []string{
+			"R-KINDS / R-PRATT: conversion table of Go values (a nil slice or map is an empty container, truthy); grouping of chained ternaries",
 			"R-LOOP (evaluator state): no field of an existing Evaluator is written while evaluating, except counter steps",
 			"R-ERRLAYER: no fault message of the evaluator (a fail constant referenced from package evaluator) is raised by the parser",
 			"R-BODYENTRY: every caller of the block parser, evaluated by cases on an abstract parser (token types as named unknowns), enters it only on a token it has looked at and that is not END / ELSE / ELSE_IF — an empty body is an empty block, not the enclosing construct's closer",
@@ -19,6 +20,8 @@ func init() {
 		NotDecided:  "TODO",
 		Assumptions: trustedBase,
 		Run: func(m *Model, s *Sink) {
+			m.RunPratt(s, "R-PRATT")       // the ternary nests to the right in its else part
+			m.RunKinds(s, "R-KINDS")       // what a Go value becomes decides its truth: a nil slice is an empty array, not nil
 			m.RunEvalState(s, "R-LOOP")    // evaluation keeps no flags between constructs
 			m.RunErrLayer(s, "R-ERRLAYER") // evaluation faults are raised by evaluation, not while parsing
 			m.RunDirMode(s, "R-DIRMODE")   // text right after a bare @else / @end / @break / @continue stays text, also when it starts with "("
